@@ -22,7 +22,7 @@ def mesh_spec(draw, tier="quick", sources=("device", "grid", "delaunay", "ring")
         nx = draw(st.integers(3, 9 if not big else 16))
         ny = draw(st.integers(3, 8 if not big else 14))
         spec = dict(src="grid", nx=nx, ny=ny, h=draw(gen.rf(0.3, 2.0)),
-                    jitter=draw(gen.rf(0.0, 0.3)), k=[draw(gen.rf(0.3, 3.0)) for _ in range(4)],
+                    jitter=draw(st.one_of(st.just(0.0), gen.rf(0.0, 0.3))), k=[draw(gen.rf(0.3, 3.0)) for _ in range(4)],
                     diag=draw(st.sampled_from(["delaunay", "regular"])))
     elif src == "delaunay":
         # one point per cell of a coarse grid, offset inside the cell: distinct, well separated
